@@ -32,6 +32,7 @@ type Op struct {
 	Merge   bool   `json:"merge"`
 	Discard bool   `json:"discard"`
 	Tag     string `json:"tag,omitempty"` // free-form provenance label
+	Reps    int    `json:"reps,omitempty"`
 }
 
 // Event is an executed Op with what was observed on the pulsar message and on the dynamicpb twin.
@@ -52,6 +53,9 @@ type Event struct {
 	RefSt   J      `json:"ref_st,omitempty"`  // twin projection
 	RefErr  string `json:"ref_err,omitempty"`
 	Case    int    `json:"case"`
+	Outs    [][]int `json:"outs"`              // detn: distinct outputs over all repetitions and histories
+	Marshals int    `json:"marshals"`
+	Histories int   `json:"histories"`
 }
 
 func findType(name string) protoreflect.MessageType {
@@ -125,6 +129,9 @@ func (r *codecRunner) emit(e *Event) {
 	}
 	if e.In == nil {
 		e.In = []int{}
+	}
+	if e.Outs == nil {
+		e.Outs = [][]int{}
 	}
 	b, err := json.Marshal(e)
 	if err != nil {
@@ -206,6 +213,49 @@ func (r *codecRunner) run(op Op) {
 				e.Panic, e.Ok = "equal: "+p, false
 			}
 		}
+	case "detn":
+		// C05: many deterministic marshals of equal messages built through different histories
+		o := proto.MarshalOptions{Deterministic: true}
+		seen := map[string]bool{}
+		variants := []proto.Message{r.p}
+		e.Panic = catch(func() {
+			cur := proj.Project(proj.Impl(r.p), proj.WrapImpl)
+			// (1) same value inserted in reverse key order
+			v1 := newPulsar(r.mt)
+			proj.FillOrder(proj.Impl(v1), cur, proj.WrapImpl, true)
+			// (2) grow then shrink: extra map keys inserted first and deleted afterwards
+			v2 := newPulsar(r.mt)
+			proj.FillOrder(proj.Impl(v2), cur, proj.WrapImpl, false)
+			growShrink(v2.ProtoReflect())
+			// (3) nil versus empty containers
+			v3 := proto.Clone(r.p)
+			plantEmpty(reflect.ValueOf(v3))
+			// (4) decoded from the wire
+			v4 := newPulsar(r.mt)
+			if b, err := proto.Marshal(r.p); err == nil {
+				proto.Unmarshal(b, v4)
+			}
+			variants = append(variants, v1, v2, v3, v4)
+			for _, m := range variants {
+				for i := 0; i < op.Reps; i++ {
+					b, err := o.Marshal(m)
+					if err != nil {
+						e.Err = err.Error()
+						return
+					}
+					e.Marshals++
+					if !seen[string(b)] {
+						seen[string(b)] = true
+						e.Outs = append(e.Outs, proj.Bytes(b))
+					}
+				}
+			}
+		})
+		e.Histories = len(variants)
+		e.Ok = e.Panic == "" && e.Err == ""
+		rb, _ := o.Marshal(r.d)
+		e.RefOut = proj.Bytes(rb)
+		e.RefOk = true
 	case "size":
 		o := proto.MarshalOptions{Deterministic: op.Det}
 		e.Panic = catch(func() {
@@ -309,6 +359,9 @@ func randomCodecPlan(g *val.Gen, mt protoreflect.MessageType, mode string, emit 
 		emit(Op{Op: "marshal", Det: true, Tag: "det"})
 		emit(Op{Op: "marshal", Det: true, Tag: "det"})
 	}
+	if mode == "pure" {
+		emit(Op{Op: "detn", Reps: 6, Tag: "pure"})
+	}
 	if is("size") {
 		emit(Op{Op: "size", Det: true, Tag: "size"})
 		emit(Op{Op: "size", Det: false, Tag: "size"})
@@ -381,9 +434,108 @@ func cmdCodec(args []string) {
 	mt := findType(*typ)
 	g := val.New(*seed)
 	g.MaxDepth = *maxDepth
+	if *mode == "pure" {
+		g.MaxLen = 9
+		g.Budget = 120
+	}
 	for i := 0; i < *n; i++ {
 		randomCodecPlan(g, mt, *mode, r.run)
 	}
 }
 
 var _ = reflect.TypeOf
+
+// growShrink inserts and then deletes extra keys in every populated map (and nested ones), and
+// appends+truncates every populated list, leaving the value unchanged.
+func growShrink(m protoreflect.Message) {
+	m.Range(func(fd protoreflect.FieldDescriptor, v protoreflect.Value) bool {
+		switch {
+		case fd.IsMap():
+			mp := v.Map()
+			var extra []protoreflect.MapKey
+			for i := 0; i < 12; i++ {
+				var k protoreflect.MapKey
+				switch fd.MapKey().Kind() {
+				case protoreflect.BoolKind:
+					k = protoreflect.ValueOfBool(i%2 == 0).MapKey()
+				case protoreflect.StringKind:
+					k = protoreflect.ValueOfString(fmt.Sprintf("\x01extra-%d", i)).MapKey()
+				case protoreflect.Int32Kind, protoreflect.Sint32Kind, protoreflect.Sfixed32Kind:
+					k = protoreflect.ValueOfInt32(int32(-1000000 - i)).MapKey()
+				case protoreflect.Int64Kind, protoreflect.Sint64Kind, protoreflect.Sfixed64Kind:
+					k = protoreflect.ValueOfInt64(int64(-1000000 - i)).MapKey()
+				case protoreflect.Uint32Kind, protoreflect.Fixed32Kind:
+					k = protoreflect.ValueOfUint32(uint32(3000000000 + i)).MapKey()
+				default:
+					k = protoreflect.ValueOfUint64(uint64(3000000000 + i)).MapKey()
+				}
+				if !mp.Has(k) {
+					mp.Set(k, mp.NewValue())
+					extra = append(extra, k)
+				}
+			}
+			for _, k := range extra {
+				mp.Clear(k)
+			}
+			if fd.MapValue().Message() != nil {
+				mp.Range(func(_ protoreflect.MapKey, mv protoreflect.Value) bool { growShrink(mv.Message()); return true })
+			}
+		case fd.IsList():
+			l := v.List()
+			n := l.Len()
+			for i := 0; i < 5; i++ {
+				l.Append(l.NewElement())
+			}
+			l.Truncate(n)
+			if fd.Message() != nil {
+				for i := 0; i < n; i++ {
+					growShrink(l.Get(i).Message())
+				}
+			}
+		case fd.Message() != nil:
+			growShrink(v.Message())
+		}
+		return true
+	})
+}
+
+// plantEmpty replaces nil slices and maps in a generated struct (recursively) by empty non-nil
+// ones: equal messages, different Go state.
+func plantEmpty(v reflect.Value) {
+	if v.Kind() == reflect.Ptr {
+		if v.IsNil() {
+			return
+		}
+		v = v.Elem()
+	}
+	if v.Kind() != reflect.Struct {
+		return
+	}
+	for i := 0; i < v.NumField(); i++ {
+		f := v.Field(i)
+		sf := v.Type().Field(i)
+		if sf.PkgPath != "" || sf.Tag.Get("protobuf") == "" {
+			continue
+		}
+		switch f.Kind() {
+		case reflect.Slice:
+			if f.IsNil() {
+				f.Set(reflect.MakeSlice(f.Type(), 0, 0))
+			} else if f.Type().Elem().Kind() == reflect.Ptr {
+				for j := 0; j < f.Len(); j++ {
+					plantEmpty(f.Index(j))
+				}
+			}
+		case reflect.Map:
+			if f.IsNil() {
+				f.Set(reflect.MakeMap(f.Type()))
+			} else if f.Type().Elem().Kind() == reflect.Ptr {
+				for _, k := range f.MapKeys() {
+					plantEmpty(f.MapIndex(k))
+				}
+			}
+		case reflect.Ptr:
+			plantEmpty(f)
+		}
+	}
+}
